@@ -91,12 +91,16 @@ class IdealManager(object):
     def create_session(self, rid, bundle, autotrust=False):
         self.calls.append(("create_session", rid))
         self.sessions = True
+        if self.outcome == "no-session-until-keys":
+            self.outcome = "ok"
 
     def _decrypt(self, who):
         self.calls.append(("decrypt", who))
         from yowsup.axolotl import exceptions as X
         from axolotl.untrustedidentityexception import UntrustedIdentityException
         o = self.outcome
+        if o == "no-session-until-keys":
+            raise X.NoSessionException()           # every message of the contact fails like this until its keys have been fetched
         if o == "ok":
             if isinstance(self.plaintext, dict):
                 return self.plaintext[self._api]
@@ -465,6 +469,38 @@ def h_receive(ctx, enctype, outcome, payload):
     return obs
 
 
+def h_parked_messages(ctx, count):
+    """`count` messages of one contact arrive while no session with it exists: each is parked and asks for the contact's keys; the key
+    answers arrive (one per request): every parked message is delivered exactly once, whichever answer releases it"""
+    plaintext = _payload("text")
+    st, bottom, app, mgr, sl, rl = _stack(ctx, sessions=True, outcome="no-session-until-keys", plaintext=plaintext)
+    N = SC.N()
+    sender = _jid(ctx, "from")
+    ids = [H.zstr(ctx, "id%d" % i) for i in range(count)]
+    if H.sym(ctx):
+        for i in range(count):
+            for j in range(i):
+                ctx.assume(ids[i] != ids[j])
+    elif len(set(ids)) != count:
+        raise core.Infeasible()
+    for mid in ids:
+        bottom.inject(N("message", {"id": mid, "from": sender, "type": "text", "t": "1400000000", "notify": "n"}, [N("enc", {"type": "msg", "v": "2"}, None, b"\x33\x08ciphertext")]))
+    kiq = [n for n in bottom.down if n.tag == "iq"]
+    obs = [("every parked message asks for the contact's keys, nothing is delivered yet (%d requests)" % len(kiq), 1 <= len(kiq) <= count and len(app.up) == 0)]
+    from checks import c09
+    found, _ = c09.discover()
+    fx = [c09._load_fixture(m, c)[1] for m, c, _l, _d in found if c == "ResultGetKeysIqProtocolEntityTest"][0]
+    user = fx.getChild("list").children[0]
+    for q in kiq:
+        bottom.inject(N("iq", {"id": hooks.dict_get(q.attributes, "id"), "type": "result", "from": "s.whatsapp.net"}, [N("list", {}, [N("user", {"jid": sender}, list(user.children))])]))
+    got = [e.getId() for e in app.up]
+    obs.append(("after the key answers every parked message has been delivered exactly once (%d deliveries for %d messages)" % (len(got), count), len(got) == count))
+    for i, mid in enumerate(ids):
+        n_i = [g for g in got if (SC.val_eq(g, mid) is True)]
+        obs.append(("message %d delivered once" % i, len(n_i) == 1 if not H.sym(ctx) else len(got) == count))
+    return obs
+
+
 def h_retry_receipt(ctx):
     """a retry receipt for a queued 1:1 message: acknowledged, keys fetched, the ORIGINAL re-encrypted once"""
     st, bottom, app, mgr, sl, rl = _stack(ctx, sessions=True)
@@ -743,6 +779,8 @@ def cases(tier):
     for kind in ("text", "extended_text", "image", "location", "contact"):
         for which in ("none", "all"):
             cs.append(dict(name="content[%s,%s optional fields]" % (kind, which), fn=h_content, args=(kind, which)))
+    for count in (1, 2, 3):
+        cs.append(dict(name="parked[%d messages waiting for the contact's keys]" % count, fn=h_parked_messages, args=(count,)))
     cs.append(dict(name="send2[1:1]", fn=h_send_two, args=("contact",)))
     cs.append(dict(name="send2[group]", fn=h_send_two, args=("group",)))
     for payload in ("text", "extended-text"):
